@@ -254,6 +254,12 @@ func valsEqual(s *flat, a, b []val) (int, bool) {
 	return -1, true
 }
 
+// layoutErr is returned by the enc adapters when the code under test succeeded but broke the size
+// contract (wrote past the structure, returned a wrong byte count).
+type layoutErr string
+
+func (e layoutErr) Error() string { return string(e) }
+
 // putEnc adapts a Put(buf) style encoder: the buffer is pre-filled with 0xAA and has slack after
 // the structure so that unwritten holes and writes past the ABI size are both visible.
 func putEnc(size int, put func(vals []val, buf []byte) error) func(vals []val) ([]byte, error) {
@@ -264,7 +270,7 @@ func putEnc(size int, put func(vals []val, buf []byte) error) func(vals []val) (
 		}
 		for i := size; i < len(buf); i++ {
 			if buf[i] != 0xAA {
-				return nil, fmt.Errorf("HARNESS-OVERRUN: byte %d past the %d-byte structure was written", i, size)
+				return nil, layoutErr(fmt.Sprintf("byte %d past the %d-byte structure was written", i, size))
 			}
 		}
 		return buf[:size], nil
@@ -315,6 +321,10 @@ func runFlat(t *testing.T, s *flat, n int) {
 		err, pan := call(func() (e error) { got, e = s.enc(vals); return })
 		if pan != nil {
 			ev.Violation(t, "C18/encode-panic/"+s.name, "%s: encoding %v panicked: %v", s.name, vals, pan)
+			return
+		}
+		if lerr, ok := err.(layoutErr); ok {
+			ev.Violation(t, "C18/wrong-layout/"+s.name, "%s: encoding %v: %s", s.name, vals, string(lerr))
 			return
 		}
 		if err != nil {
